@@ -120,7 +120,7 @@ fn continue_and_audit(env: &Env, a: &mut Rep, b: &mut Rep, accepted: &Accepted, 
         out.inconclusive = Some(e);
         return false;
     }
-    for round in 0..6 {
+    for round in 0..4 {
         let before = accepted.borrow().len();
         for (who, rep, srv) in [("B", &mut *b, &mut sb), ("A", &mut *a, &mut sa)] {
             let mut done = false;
@@ -649,7 +649,7 @@ pub fn run(ctx: &Ctx) -> Outcome {
         let sample: Vec<u64> = if ctx.tier == crate::report::Tier::Quick && with_remote && only_idx.is_none() {
             let mut all: Vec<u64> = (0..total).collect();
             crate::rng::Rng::derive(ctx.seed, "c11-git-sample", 0).shuffle(&mut all);
-            all.truncate(20);
+            all.truncate(10);
             all.sort();
             all
         } else {
